@@ -777,6 +777,13 @@ impl HuffmanEncoder {
     }
 }
 
+/// Upper bound on the number of symbols `encoded` can hold, capped by the requested count.
+/// Used as a reservation hint so that a bogus expected length cannot drive the allocation.
+#[inline]
+fn max_symbols_in(encoded: &[u8], requested: usize) -> usize {
+    requested.min(encoded.len().saturating_mul(8).saturating_add(1))
+}
+
 /// Huffman decoder
 #[derive(Debug)]
 pub struct HuffmanDecoder {
@@ -800,7 +807,9 @@ impl HuffmanDecoder {
             None => return Err(ZiporaError::invalid_data("Empty Huffman tree")),
         };
 
-        let mut result = Vec::with_capacity(output_length);
+        // `output_length` comes from the caller (usually from a header): reserve no more
+        // than the input can possibly encode (every symbol costs at least one bit).
+        let mut result = Vec::with_capacity(max_symbols_in(encoded_data, output_length));
         let mut current_node = root;
 
         for &byte in encoded_data {
@@ -1879,20 +1888,14 @@ impl ContextualHuffmanDecoder {
             return Ok(Vec::new());
         }
 
-        let mut result = Vec::with_capacity(output_length);
-
-        match self.encoder.order {
+        let result = match self.encoder.order {
             HuffmanOrder::Order0 => {
                 let tree = &self.encoder.trees[0];
-                result = self.decode_order0(encoded_data, tree, output_length)?;
+                self.decode_order0(encoded_data, tree, output_length)?
             }
-            HuffmanOrder::Order1 => {
-                result = self.decode_order1(encoded_data, output_length)?;
-            }
-            HuffmanOrder::Order2 => {
-                result = self.decode_order2(encoded_data, output_length)?;
-            }
-        }
+            HuffmanOrder::Order1 => self.decode_order1(encoded_data, output_length)?,
+            HuffmanOrder::Order2 => self.decode_order2(encoded_data, output_length)?,
+        };
 
         if result.len() != output_length {
             return Err(ZiporaError::invalid_data(format!(
@@ -1908,7 +1911,7 @@ impl ContextualHuffmanDecoder {
     /// Decode Order-0 (classic Huffman)
     fn decode_order0(&self, encoded_data: &[u8], tree: &HuffmanTree, output_length: usize) -> Result<Vec<u8>> {
         let root = tree.root().ok_or_else(|| ZiporaError::invalid_data("Empty tree"))?;
-        let mut result = Vec::with_capacity(output_length);
+        let mut result = Vec::with_capacity(max_symbols_in(encoded_data, output_length));
         let mut current_node = root;
 
         for &byte in encoded_data {
@@ -1958,7 +1961,7 @@ impl ContextualHuffmanDecoder {
             return Ok(Vec::new());
         }
 
-        let mut result = Vec::with_capacity(output_length);
+        let mut result = Vec::with_capacity(max_symbols_in(encoded_data, output_length));
         let mut byte_idx = 0;
         let mut bit_pos = 0;
 
@@ -1991,7 +1994,7 @@ impl ContextualHuffmanDecoder {
             return Ok(Vec::new());
         }
 
-        let mut result = Vec::with_capacity(output_length);
+        let mut result = Vec::with_capacity(max_symbols_in(encoded_data, output_length));
         let mut byte_idx = 0;
         let mut bit_pos = 0;
 
